@@ -1,5 +1,6 @@
 import Juniper.Proofs.MergeChans
 import Juniper.Proofs.Replicate
+import Juniper.Proofs.StreamMergeClose
 /-!
 # C12 — Merge / Replicate move every value exactly once and finish when their inputs do
 
@@ -109,5 +110,77 @@ example : ∃ s : RSt (Option Int), RReach (rinit (Option Int) 2) s ∧ s.pc = .
     .recv] .refl rfl, by decide⟩
 
 end replicate
+
+section streamMerge
+variable {V : Type}
+open Juniper.Model.StreamMerge Juniper.Proofs.StreamMerge
+
+/-- **stream.Merge outputs an interleaving of its inputs** — for every number of inputs `k` and every
+reachable state: what the consumer received from input `i`, followed by the item goroutine `i` is
+currently trying to send, followed by the item whose `Send` failed (only possible once the merged
+stream was closed, an error was reported or the pipe's sender was closed), is exactly the sequence of
+items `in[i].Next` has returned. So the output restricted to input `i` is a prefix of input `i` (order
+preserved, nothing duplicated or invented), and every delivered item carries the tag of one of the
+`k` inputs. -/
+theorem streamMerge_interleaving (k : Nat) (s : St V) (h : Reach (init V k) s) :
+    (∀ i g, s.gs[i]? = some g → proj i s.out ++ heldG g.pc ++ g.dropped = g.items) ∧
+    (∀ p, p ∈ s.out → p.1 < k) := by
+  have hb : InvB k s := by
+    induction h with
+    | refl => exact invB_init k
+    | step l hr hs ih => exact invB_step (reach_invA hr) ih hs
+  exact ⟨hb.conserve, hb.tags⟩
+
+example : ∃ s : St (Option Int), Reach (init (Option Int) 2) s ∧ s.out = [(1, some 7), (0, some 3)] ∧
+    s.results = [.item 1 (some 7), .item 0 (some 3)] :=
+  ⟨_, reach_of_run [.inItem 0 (some 3), .inItem 1 (some 7), .cCall true, .sendOk 1, .cCall true, .sendOk 0] .refl rfl,
+    by decide⟩
+
+/-- **Every input of stream.Merge is closed exactly once by the time `Close` of the merged stream
+returns, never used after, and `Next`/`Close` of an input never overlap** (the Merge clause of C09) —
+in every reachable state: no input has been closed more than once, no `Next` began after a `Close`,
+an input whose `Next` is in progress has not been closed (and `in[i].Close()` is only issued by the
+goroutine that issues `in[i].Next`, after its loop, so the two never run concurrently); and once
+`Close` of the merged stream has returned, every one of the `k` inputs has been closed exactly once
+and every goroutine has called `wg.Done()`. -/
+theorem streamMerge_inputs_closed_once (k : Nat) (s : St V) (h : Reach (init V k) s) :
+    s.gs.length = k ∧
+    (∀ g, g ∈ s.gs → g.closes ≤ 1 ∧ g.nextAfterClose = false ∧ (g.pc = .next → g.closes = 0)) ∧
+    (s.cpc = .closing [] → ∀ g, g ∈ s.gs → g.closes = 1 ∧ pastWg g.pc = true) := by
+  have ha := reach_invA h
+  have hd := reach_invD h
+  refine ⟨ha.len, ?_, fun hc => closed_once_when_close_returned ha hd hc⟩
+  intro g hg
+  have hl := ha.loc g hg
+  refine ⟨?_, hl.nac, ?_⟩
+  · rw [hl.closes]; split <;> omega
+  · intro hp; rw [hl.closes, hp]; rfl
+
+/-- **After the merged stream has been closed, the goroutines of stream.Merge finish without needing
+further input** — in every reachable state in which `Close` has been called (`cpc = closing rest`):
+(1) every step whatsoever strictly decreases the measure `nu` and `Close` stays in progress, so only
+finitely many steps remain; (2) as long as `Close` has not returned or some goroutine has not
+finished, a step from `internalLabels` is enabled — a step of a goroutine, of `Close`, or the return
+of an input's `Next` with the error of the cancelled context; none of them is an item, an end or an
+error of an input; (3) hence some run of such steps ends with `Close` returned and every goroutine
+finished. (Assumption, stated in `internalLabels`: an input's `Next` returns once the context it was
+given is cancelled.) -/
+theorem streamMerge_goroutines_finish_after_close (k : Nat) (s : St V) (h : Reach (init V k) s)
+    (rest : List CloseStep) (hc : s.cpc = .closing rest) :
+    (∀ l s', step s l = some s' → nu s' < nu s ∧ ∃ rest', s'.cpc = .closing rest') ∧
+    ((rest ≠ [] ∨ ∃ g, g ∈ s.gs ∧ g.pc ≠ .finished) → ∃ l, l ∈ internalLabels s ∧ ∃ s', step s l = some s') ∧
+    (∃ ls s', run s ls = some s' ∧ InternalRun s ls ∧ s'.cpc = .closing [] ∧ ∀ g, g ∈ s'.gs → g.pc = .finished) :=
+  ⟨fun _ _ hs => after_close_decreases hc hs,
+   fun hnf => after_close_enabled (reach_invA h) (reach_invD h) hc hnf,
+   after_close_finishes (nu s) s rest (reach_invA h) (reach_invD h) hc (Nat.le_refl _)⟩
+
+/-- two inputs blocked forever in `Next`, one item delivered, then `Close`: everything finishes -/
+example : ∃ s : St (Option Int), Reach (init (Option Int) 2) s ∧ s.cpc = .closing [] ∧
+    s.gs.map (·.pc) = [.finished, .finished] ∧ s.gs.map (·.closes) = [1, 1] :=
+  ⟨_, reach_of_run [.inItem 0 (some 3), .cCall true, .sendOk 0, .cClose, .cCloseStep, .cCloseStep, .inCtx 0, .inCtx 1,
+      .cas 1, .cas 0, .win 1, .win 1, .win 1, .exitStep 0, .exitStep 0, .exitStep 1, .exitStep 1, .exitStep 0, .exitStep 0,
+      .exitStep 0, .exitStep 1, .exitStep 1, .exitStep 1, .cCloseStep] .refl rfl, by decide⟩
+
+end streamMerge
 
 end Juniper.Props.C12
